@@ -35,6 +35,9 @@ def pc(array: OneOf(Seq(Str, "list", min_len=2), Seq(Str, "ndarray", min_len=2),
                 coinc(sample_keys(array)) / (len(sample_keys(array)) * (len(sample_keys(array)) - 1))),
           name="pc_n(multiplicities) == pc")
     canary(close(result, coinc(joined_rows(array, ".")) / (len(sample_keys(array)) * len(sample_keys(array)))) if array2 is None else True, name="N^2")
+    returns(coinc(joined_rows(array, ".")) / (len(sample_keys(array)) * (len(sample_keys(array)) - 1)) if array2 is None
+            else cross(joined_rows(array, "."), joined_rows(array2, ".")) / (len(sample_keys(array)) * len(sample_keys(array2))),
+            assume_only=True)
 
 
 @contract("pyrepseq.stats.pc_joint", props=["C02"], scope="tables_on")
